@@ -83,6 +83,45 @@ Theorem C10_usable_after_failure : forall g ts tr st, run g (init ts) tr = Some 
 Proof. exact usable_after_failure. Qed.
 Print Assumptions C10_usable_after_failure.
 
+(* ---------------------------------------------------------------- Client.Abort *)
+(* every schedule, every kind of transport: right after the first half of Client.Abort the context of EVERY call that
+   is between Client.Transport's registration and its deferred removal is done, and the list is empty *)
+Theorem C10_abort_cancels_every_pending_call : forall g ts tr st st',
+  run g (init ts) tr = Some st -> step g st LAbortCancel = Some st' ->
+  cancels st' = [] /\
+  forall k cl, nth_error (callers st') k = Some cl -> started (pc cl) = true -> cancelled cl = true.
+Proof. exact abort_cancels_every_pending_call. Qed.
+Print Assumptions C10_abort_cancels_every_pending_call.
+
+(* a call whose context is done has a completing step enabled: inside rpc/http, fasthttp, mock (CDirect; the model takes
+   the transport to honour its context) as well as in either select of a multiplexed transport *)
+Theorem C10_cancelled_call_can_return : forall g st k cl,
+  refs_ok st -> nth_error (callers st) k = Some cl -> cancelled cl = true ->
+  (pc cl = CDirect -> exists st', step g st (LDirectCancel k) = Some st') /\
+  (forall c i, waiting_at (pc cl) = Some (c, i) -> exists st', step g st (LCancelDel k) = Some st').
+Proof. exact cancelled_call_can_return. Qed.
+Print Assumptions C10_cancelled_call_can_return.
+
+(* ---------------------------------------------------------------- the pool *)
+(* the exit handler of connection c removes c and nothing else from the pool *)
+Theorem C10_onexit_spares_other_connections : forall g st w c c' st',
+  step g st (LOnExit w) = Some st' -> who_conn st w = Some c -> pool st = Some c' -> c' <> c -> pool st' = Some c'.
+Proof. exact onexit_spares_other_connections. Qed.
+Print Assumptions C10_onexit_spares_other_connections.
+
+Theorem C10_pooled_connection_is_intact : forall g ts tr st c cn,
+  run g (init ts) tr = Some st -> pool st = Some c -> nth_error (conns st) c = Some cn ->
+  kunpooled cn = false /\ ksock cn = false /\ kcancel cn = false.
+Proof. exact pooled_connection_is_intact. Qed.
+Print Assumptions C10_pooled_connection_is_intact.
+
+(* nothing that left the pool stays open: its socket is closed, or somebody is on the way to closing it *)
+Theorem C10_unpooled_gets_closed : forall g ts tr st,
+  run g (init ts) tr = Some st ->
+  forall c cn, nth_error (conns st) c = Some cn -> kunpooled cn = true -> ksock cn = true \/ closer_pending st c cn = true.
+Proof. exact unpooled_gets_closed. Qed.
+Print Assumptions C10_unpooled_gets_closed.
+
 (* ================================================================ THE TRANSPORTS BEFORE THE REPAIRS (g31_old) *)
 (* kept as the record of the defects: the same statements were false *)
 Theorem C10_no_stuck_caller_old_refuted :
@@ -194,3 +233,26 @@ Example rescues_nonvacuous :
   | None => False
   end.
 Proof. vm_compute. split; [reflexivity|left; reflexivity]. Qed.
+
+(* three calls pending inside a transport without a pending table (http, fasthttp, mock), Client.Abort, all three return *)
+Example abort_with_three_direct_calls :
+  let tr := [LBegin 0; LBegin 1; LBegin 2; LDirectBegin 0; LDirectBegin 1; LDirectBegin 2; LAbortCancel; LAbortSwap;
+             LDirectCancel 1; LDirectCancel 0; LDirectCancel 2; LEnd 0; LEnd 1; LEnd 2] in
+  match run g31 (init [false; true; false]) tr with
+  | Some st => map pc (callers st) = [CDone RCancel; CDone RCancel; CDone RCancel] /\ cancels st = []
+  | None => False
+  end.
+Proof. vm_compute. split; reflexivity. Qed.
+
+(* the late exit of a dead connection's Send after a replacement has been pooled: the replacement stays pooled *)
+Example late_exit_keeps_replacement :
+  let tr := [LBegin 0; LDial 0; LStore 0; LEnqueue 0; LPeerGone 0; LRecvPoll 0; LRecvFail 0; LOnExit (WR 0); LCloseSock (WR 0);
+             LCleanTake (WR 0); LCleanDone (WR 0); LTake 0; LEnd 0;
+             LBegin 1; LDial 1; LStore 1; LEnqueue 1; LSendOk 1;
+             LSendFail 0; LOnExit (WS 0); LCloseSock (WS 0); LCleanDone (WS 0);
+             LBegin 2; LGetConn 2] in
+  match run g31 (init [false; false; false]) tr with
+  | Some st => pool st = Some 1%nat /\ map pc (callers st) = [CDone RErr; CEnq 1 1; CAlloc 1 2]
+  | None => False
+  end.
+Proof. vm_compute. split; reflexivity. Qed.
